@@ -198,7 +198,7 @@ Inductive res :=
 | ROk (b : bytes)
 | ROutOfRange          (* errs.OutOfRange *)
 | RBadValue            (* errs.BadValue *)
-| RPanic               (* a Go panic escaped the builtin *)
+| RPanic               (* a Go panic escaped the builtin (observations only) *)
 | ROther.              (* any other failure the harness saw *)
 
 Definition res_eqb (a b : res) : bool :=
@@ -240,17 +240,15 @@ Definition str_replace (max : Z) (old new s : bytes) : bytes :=
   | _ :: _ => replace_fuel (S (length s)) (repls_of max) old new s
   end.
 
-(* str:repeat: the wrapper rejects n < 0 and a product that wraps to a negative
-   int; strings.Repeat itself panics when the true product exceeds MaxInt *)
+(* str:repeat: the wrapper rejects n < 0 and every n with len(s)*n > MaxInt (the
+   test n > MaxInt/len(s) cannot itself overflow), so strings.Repeat is only
+   called with a product that fits and never panics *)
 Definition two63 : Z := 9223372036854775808%Z.
-Definition wrap64 (z : Z) : Z := ((z + two63) mod (2 * two63) - two63)%Z.
+Definition maxInt : Z := (two63 - 1)%Z.
 Definition str_repeat (s : bytes) (n : Z) : res :=
-  let prod := (Z.of_nat (length s) * n)%Z in
+  let len := Z.of_nat (length s) in
   if (n <? 0)%Z then RBadValue
-  else if (wrap64 prod <? 0)%Z then RBadValue
-  else if (n =? 0)%Z then ROk []
-  else if (n =? 1)%Z then ROk s
-  else if (two63 <=? prod)%Z then RPanic
+  else if (0 <? len)%Z && (maxInt / len <? n)%Z then RBadValue
   else if is_nil s then ROk []
   else ROk (repeat_n (Z.to_nat n) s).
 
